@@ -199,6 +199,25 @@ func runC36(c *Ctx) {
 		c.Report(fn, "rule() is asked at two places (new, refresh)", fn.Pos(), len(sts) == 2, fmt.Sprintf("%d", len(sts)))
 		c.MP(fn, "a cached limiter is updated only if rule() reported a refresh", up, 1, GTrue("r.rule(addr, handler, hint, l.Type(), l.UpdatedAt())#4"))
 	}
+	// R36.1n: inside the net set the first configured network that contains the address decides
+	c.Rule("R36.1", "Ordering")
+	if fn := c.Need("launch.(NetRateLimiterRuleSet).rule"); fn != nil {
+		loop := "(ι < len(rs.ipnets))"
+		c.Exists(fn, "the networks are tried in configured order (ascending index)", toInstr(c.Loops(fn, loop)), 1)
+		c.ForEach(fn, "a network is passed over only if it does not contain the address", loop, 1, GFalse("rs.ipnets[ι].Contains(*)"))
+		found := c.ReturnsD(fn, 2, "true")
+		c.MP(fn, "a rule is answered only from a network that contains the address", found, 1, GTrue("rs.ipnets[ι].Contains(*)"))
+		for _, r := range found {
+			d := c.D(RetVal(r.(*ssa.Return), 0))
+			c.Report(fn, "the answered rule is the rule map of that network", c.InstrPos(r), strings.HasPrefix(d, "rs.rules[rs.ipnets[ι].String()]#0.Rule(handler)"), d)
+		}
+	}
+	// freshness: a cached default-map limiter is kept only if it is at least as new as the default map
+	if fn := c.Need("launch.(*RateLimiterRules).rule"); fn != nil {
+		keep := c.ReturnsD(fn, 4, "false")
+		c.MP(fn, "no refresh only for a cached default-map limiter", keep, 1, GCmp("t", "==", "\"defaultmap\""))
+		c.MP(fn, "no refresh only if the cached limiter is at least as new as the default map", keep, 1, GCmp("updatedAt", ">=", "r.defaultMapUpdatedAt"))
+	}
 	// R36.3: the cached limiter ----------------------------------------------------------------
 	// One limiter is cached per (address, handler); rule selection also reads the request's hint.
 	c.Rule("R36.3", "Dependence")
@@ -261,6 +280,13 @@ func runC36(c *Ctx) {
 				if allOK(c.MustPass(sc.fn, nil, []ssa.Instruction{sc.in}, GCmp("l.Type()", "==", "\""+kind+"\""))) {
 					mine = append(mine, sc)
 					classified[sc.in] = true
+				}
+			}
+			setField := map[string]string{"clientid": "clientid", "net": "nets", "node": "nodes", "suffrage": "suffrage"}[kind]
+			if setField != "" {
+				for _, sc := range mine {
+					ok := allOK(c.MustPass(sc.fn, nil, []ssa.Instruction{sc.in}, GCmp("l.UpdatedAt()", ">=", "r."+setField+".UpdatedAt()")))
+					c.Report(sc.fn, "a cached "+kind+" limiter is kept only if it is at least as new as the "+kind+" rule set", sc.in.Pos(), ok, "l.UpdatedAt() >= r."+setField+".UpdatedAt()")
 				}
 			}
 			if kind == "clientid" {
